@@ -418,6 +418,108 @@ def rule_steps(ctx):
     return r
 
 
+def rule_reset(ctx):
+    """A pathfinder object may be used for more than one network.  Containers on the
+    instance that a search *accumulates into* (append / heappush / insert ...) are
+    therefore re-created at the start of every search: a direct assignment in the
+    search entry that precedes everything that fills them."""
+    r = RuleResult("C20-RESET", "per-search accumulators of compressed pathfinders are reset per search", 1)
+    mods = ["cotengra/pathfinders/path_compressed_greedy.py"]
+    if ctx.tier == "thorough":
+        mods.append("cotengra/pathfinders/path_compressed.py")
+    n_cls = 0
+    for path in mods:
+        m = ctx.p.modules.get(path)
+        if m is None:
+            continue
+        for cls in [c for c in ctx.p.classes.values() if c.module is m]:
+            entry = cls.methods.get("get_ssa_path")
+            if entry is None:
+                continue
+            n_cls += 1
+            # attributes mutated in place by the search closure (own-object methods)
+            mutated = {}
+            seen, stack = set(), [entry]
+            while stack:
+                g = stack.pop()
+                if g.key in seen:
+                    continue
+                seen.add(g.key)
+                for a in ctx.effects.direct(g)["access"]:
+                    if a.recv == "self" and a.kind == "mutate":
+                        mutated.setdefault(a.attr, (g, a))
+                for n in walk_local(g.node):
+                    # heapq.heappush(self.x, ..) and friends mutate their first argument
+                    if isinstance(n, ast.Call) and (dotted(n.func) or "").split(".")[-1] in (
+                            "heappush", "heappop", "heapify", "heappushpop", "insort") and n.args and \
+                            isinstance(n.args[0], ast.Attribute) and isinstance(n.args[0].value, ast.Name) \
+                            and n.args[0].value.id == "self":
+                        mutated.setdefault(n.args[0].attr, (g, None))
+                for call, res in ctx.r.calls_in(g):
+                    if isinstance(call.func, ast.Attribute) and isinstance(call.func.value, ast.Name) \
+                            and call.func.value.id == "self":
+                        stack += [c for c in res.callees if c.cls is not None and cls.is_subclass_of(c.cls)]
+            for attr in sorted(mutated):
+                key = f"{path}::{cls.name}::C20-RESET::{attr}"
+                # reset: a top-level `self.attr = <fresh>` in the entry, before the first
+                # top-level statement that mentions the attribute otherwise or calls a self method
+                reset_at = first_use = None
+                for i, st in enumerate(entry.node.body):
+                    if isinstance(st, ast.Assign) and any(
+                            isinstance(t, ast.Attribute) and t.attr == attr and
+                            isinstance(t.value, ast.Name) and t.value.id == "self" for t in st.targets):
+                        if reset_at is None:
+                            reset_at = i
+                        continue
+                    uses = any(isinstance(x, ast.Attribute) and x.attr == attr and
+                               isinstance(x.value, ast.Name) and x.value.id == "self"
+                               for x in ast.walk(st))
+                    calls_self = any(isinstance(x, ast.Call) and isinstance(x.func, ast.Attribute)
+                                     and isinstance(x.func.value, ast.Name) and x.func.value.id == "self"
+                                     and x.func.attr != attr for x in ast.walk(st))
+                    if (uses or calls_self) and first_use is None and not isinstance(st, ast.Expr) \
+                            or (uses and first_use is None):
+                        first_use = i
+                if reset_at is not None and (first_use is None or reset_at < first_use):
+                    r.ok(key, C.loc(entry, entry.node.body[reset_at]), "re-created at the start of every search")
+                else:
+                    g, a = mutated[attr]
+                    r.violation(key, entry.loc, f"self.{attr} is filled during a search ({g.qual}) but not "
+                                "re-created at the start of get_ssa_path: a second search on the same "
+                                "object continues from the previous network's steps and candidates, and "
+                                "the returned path is not a complete ordered tree of the new network")
+    C.require(n_cls >= 1, "no compressed pathfinder class with get_ssa_path found")
+    if not r.instances:
+        r.min_instances = 0
+        r.note("no instance-level accumulators in the compressed pathfinders")
+    return r
+
+
+def rule_freshstats(ctx):
+    """The estimates are recomputed from the current tree on every request: the
+    estimator entry keeps nothing on the tree (no per-node entry, no attribute), so
+    an in-place change of the tree can never be answered with the figures of the
+    tree as it was.  Lazy ``if x is None`` defaults are not state of that kind."""
+    from .c02 import real_writes, tree_class
+    r = RuleResult("C20-FRESHSTATS", "compressed estimates are recomputed, never memoised on the tree", 1)
+    tc = tree_class(ctx)
+    f = tc.lookup("compressed_contract_stats")
+    C.require(f is not None, "compressed_contract_stats not found")
+    key = ctx.key(f, "C20-FRESHSTATS")
+    stores = [n for kind, k, ne, n, v, ke in C.info_key_accesses(f) if kind == "store"]
+    w = real_writes(ctx, f)
+    if stores:
+        r.violation(key, C.loc(f, stores[0]), f"`{C.unparse(stores[0], 60)}` keeps the simulated "
+                    "contraction in a per-node entry: it depends on the whole tree, the entry is only "
+                    "dropped when that node is rebuilt, so after an in-place change below it the "
+                    "estimates describe the old tree while the exact figures describe the new one")
+    elif w:
+        r.violation(key, f.loc, f"the estimator writes tree state {sorted(w)}")
+    else:
+        r.ok(key, f.loc, "stateless: a fresh hypergraph and tracker per call")
+    return r
+
+
 def rule_surv(ctx):
     """Shared with C18-SURV: with an uncapped chi the estimates equal the exact figures
     only if the hypergraph keeps exactly the indices the tree keeps."""
@@ -428,4 +530,5 @@ def rule_surv(ctx):
                         "or in the output", lambda i: C.HYPERGRAPH in i.construct, 2)
 
 
-RULES = [rule_cap, rule_sizewrites, rule_own, rule_siblings, rule_range, rule_steps, rule_surv]
+RULES = [rule_cap, rule_sizewrites, rule_own, rule_siblings, rule_range, rule_steps, rule_surv,
+         rule_freshstats, rule_reset]
